@@ -684,19 +684,136 @@ fn case_b(rng: &mut Rng, out: &mut Out, id: &str, plan: &Plan, keep_empty: bool,
     let dec = indep::decode(&bytes, &[privkey]);
     let zero_blocks = keep_empty && plan.pieces.iter().enumerate().any(|(k, (f, q))| q.is_empty() && plan.pieces[k + 1..].iter().any(|(g, r)| g == f && !r.is_empty()));
     let table: Vec<(Vec<u8>, Vec<u8>)> = dec.as_ref().map(|d| d.brotli.clone()).unwrap_or_default();
-    let (model_fn, args, mode) = if to_model && !keep_empty { model_args(&bytes, plan.layers, &privkey, dec.as_ref().ok(), &table, full_x) } else { ("", vec![], "oracle-only") };
-    let mut c = Case {
+    let (model_fn, args, mode) = if to_model { model_args(&bytes, plan.layers, &privkey, dec.as_ref().ok(), &table, full_x) } else { ("", vec![], "oracle-only") };
+    // C06-ZLB (an empty block read as end of file) is repaired: a failure here is a violation like any other
+    out.case(&Case {
         id: id.into(), model_fn, args, imp, oracle_ok: oracle.is_ok(), oracle_msg: oracle.err().unwrap_or_default(),
         class: format!("{}{} {}", size_class(total, plan.layers, "indep->lib"), if keep_empty { " zero-length-content-blocks" } else { "" }, mode), nontrivial: total > 0,
         meta: json!({"layers": plan.layers, "quality": plan.level, "recipients": nrec, "files": plan.names.len(), "total": total, "archive_len": bytes.len(),
-                     "indep_selfcheck": dec.as_ref().map(|_| "ok".to_string()).unwrap_or_else(|e| e.clone()),
+                     "indep_selfcheck": dec.as_ref().map(|_| "ok".to_string()).unwrap_or_else(|e| e.clone()), "zero_block_before_data": zero_blocks,
                      "pieces": plan.pieces.iter().map(|p| (p.0, p.1.len())).collect::<Vec<_>>()}),
-    }.to_json();
-    if !c["oracle_ok"].as_bool().unwrap() && zero_blocks {
-        c["known"] = json!("C06-ZLB");
+    });
+}
+
+// ---------------------------------------------------------------- (b'') empty content blocks: whole reading histories, through the model
+
+/// Length of the header of a layer-less archive: "MLA", version (u32), layers byte, `None` of the encryption parameters.
+const PLAIN_HEADER: usize = 9;
+
+/// A layer-less archive written from FORMAT.md by the independent encoder in which EVERY piece,
+/// empty ones included, is a FileContent block (`[u8; length]` with length 0 is allowed).
+fn zlb_archive(names: &[Vec<u8>], pieces: &[(usize, Vec<u8>)], footer_rot: usize) -> Vec<u8> {
+    let p = indep::EncParams { layers: 0, recipients: vec![], ephemeral: [0; 32], key: [0; 32], nonce: [0; 8], quality: 0, keep_empty_pieces: true, footer_rot };
+    indep::encode(names, pieces, &p)
+}
+
+/// Block-length patterns (file index, piece length) with empty blocks first, last, in a row, alone in a run
+/// (between blocks of other files), in files that have nothing else, and many in a row.
+fn zlb_patterns(rng: &mut Rng, n_random: usize) -> Vec<(usize, Vec<(usize, usize)>)> {
+    let mut v: Vec<(usize, Vec<(usize, usize)>)> = vec![
+        (1, vec![(0, 0), (0, 3), (0, 0), (0, 2)]),
+        (1, vec![(0, 0), (0, 0), (0, 0), (0, 5)]),
+        (1, vec![(0, 4), (0, 0)]),
+        (1, vec![(0, 0)]),
+        (2, vec![(0, 2), (1, 1), (0, 0), (1, 1), (0, 3)]),
+        (2, vec![(0, 0), (1, 0), (0, 1), (1, 2), (0, 0), (1, 0)]),
+        (3, vec![(0, 1), (1, 0), (2, 0), (1, 5), (2, 0), (0, 0), (2, 7), (0, 2)]),
+        (2, vec![(0, 64), (0, 0), (0, 64), (1, 0), (0, 0), (0, 1)]),
+        (2, vec![(1, 0), (0, 0), (1, 0), (0, 0), (1, 3), (0, 3)]),
+        (1, vec![(0, 100), (0, 0), (0, 0), (0, 100)]),
+    ];
+    let mut many: Vec<(usize, usize)> = vec![(0, 0); 40];
+    many.push((0, 70));
+    many.extend(vec![(0, 0); 25]);
+    v.push((1, many));
+    for _ in 0..n_random {
+        let nf = rng.range(1, 3) as usize;
+        let np = rng.range(3, 12) as usize;
+        let ps = (0..np).map(|_| (rng.below(nf as u64) as usize, if rng.below(2) == 0 { 0 } else { *rng.pick(&[1usize, 2, 5, 63, 64, 65, 130]) })).collect();
+        v.push((nf, ps));
     }
-    out.raw(&c);
-    out.n += 1;
+    v
+}
+
+fn case_z(rng: &mut Rng, out: &mut Out, id: &str, nfiles: usize, lens: &[(usize, usize)]) {
+    let names: Vec<Vec<u8>> = (0..nfiles).map(|i| format!("z/{i}").into_bytes()).collect();
+    let pieces: Vec<(usize, Vec<u8>)> = lens.iter().map(|(f, n)| (*f, rng.bytes(*n))).collect();
+    let bytes = zlb_archive(&names, &pieces, rng.below(4) as usize);
+    let contents = contents_of(&names, &pieces);
+    let total: usize = contents.iter().map(|c| c.len()).sum();
+    // history: list; per file hash, read to the end, a few single reads; linear extraction of all and of each
+    let mut ops: Vec<Vec<u64>> = vec![vec![0]];
+    for i in 0..nfiles as u64 {
+        ops.push(vec![1, i]);
+        ops.push(vec![3, i, *rng.pick(&[1u64, 2, 7, 64, 100, 4099])]);
+        ops.push(vec![2, i, 1, 2, 3, 64, 1]);
+    }
+    let mut all = vec![4u64];
+    all.extend(0..nfiles as u64);
+    ops.push(all);
+    for i in 0..nfiles as u64 {
+        ops.push(vec![4, i]);
+    }
+    let rows = archive::run_history(&bytes, &[], &names, &ops, true);
+    let plan = Plan { names: names.clone(), pieces: pieces.clone(), layers: 0, level: 0, recipients: 0, reader_key: 0 };
+    let built = archive::Built { bytes: bytes.clone(), header_len: PLAIN_HEADER, key: [0; 32], nonce: [0; 8], privs: vec![], contents };
+    let oracle = archive::oracle_read(&plan, &built, &ops, &rows)
+        .map_err(|e| format!("library reading of an archive written from FORMAT.md with zero-length FileContent blocks: {e}"));
+    let nzero = lens.iter().filter(|p| p.1 == 0).count();
+    out.case(&Case {
+        id: id.into(), model_fn: "hist_plain", args: vec![jbytes(&bytes[PLAIN_HEADER..]), json!(names), json!(ops)], imp: json!(rows),
+        oracle_ok: oracle.is_ok(), oracle_msg: oracle.err().unwrap_or_default(),
+        class: format!("indep->lib layers=0 zero-length-content-blocks history files={nfiles} zero={} model", nzero.min(9)), nontrivial: total > 0,
+        meta: json!({"layers": 0, "files": nfiles, "total": total, "archive_len": bytes.len(), "pieces": lens}),
+    });
+}
+
+/// C06-ZLB: a file whose content blocks are [0 bytes][3 bytes][0 bytes][2 bytes] (alone, and with a
+/// second file in between) is read completely by get_file + read_to_end, by linear_extract and by repair.
+pub fn witness_zlb() -> Result<(), String> {
+    let a = b"abc".to_vec();
+    let b = b"de".to_vec();
+    let shapes: Vec<(usize, Vec<(usize, Vec<u8>)>)> = vec![
+        (1, vec![(0, vec![]), (0, a.clone()), (0, vec![]), (0, b.clone())]),
+        (2, vec![(0, vec![]), (0, a.clone()), (1, b"x".to_vec()), (0, vec![]), (1, vec![]), (0, b.clone()), (1, b"y".to_vec())]),
+    ];
+    for (k, (nf, pieces)) in shapes.iter().enumerate() {
+        let names: Vec<Vec<u8>> = (0..*nf).map(|i| format!("w{i}").into_bytes()).collect();
+        let bytes = zlb_archive(&names, pieces, 0);
+        let contents = contents_of(&names, pieces);
+        let want = b"abcde".to_vec();
+        if contents[0] != want {
+            return Err("C06-ZLB: witness construction".into());
+        }
+        // get_file + read_to_end (and size, hash)
+        let fs = library_read(&bytes, &[]).map_err(|e| format!("C06-ZLB shape {k}: {e}"))?;
+        same_files(&fs, &names, &contents).map_err(|e| format!("C06-ZLB shape {k}: get_file + read_to_end: {e}"))?;
+        // linear_extract
+        let mut op = vec![4u64];
+        op.extend(0..*nf as u64);
+        let rows = archive::run_history(&bytes, &[], &names, &[op], true);
+        for (i, c) in contents.iter().enumerate() {
+            let exp: Vec<u64> = std::iter::once(6u64).chain(c.iter().map(|x| *x as u64)).collect();
+            if rows.get(2 + i) != Some(&exp) {
+                return Err(format!("C06-ZLB shape {k}: linear_extract of file {i} returns {:?}", rows.get(2 + i)));
+            }
+        }
+        // repair
+        let r = crate::repair::repair_bytes(&bytes, &[], true);
+        if r.status != Some(12) || !r.unfinished.is_empty() || !r.reread_ok {
+            return Err(format!("C06-ZLB shape {k}: repair status {:?}, {} unfinished, crashed {:?}", r.status, r.unfinished.len(), r.crashed));
+        }
+        for (i, c) in contents.iter().enumerate() {
+            if r.files.iter().find(|f| f.0 == names[i]).map(|f| &f.1) != Some(c) {
+                return Err(format!("C06-ZLB shape {k}: repair does not recover file {i} completely"));
+            }
+        }
+    }
+    Ok(())
+}
+
+pub fn witnesses() -> Vec<(&'static str, &'static str, fn() -> Result<(), String>)> {
+    vec![("C06-ZLB", "C06", witness_zlb)]
 }
 
 // ---------------------------------------------------------------- (c) the committed sample
@@ -941,7 +1058,11 @@ pub fn c06_cases(rng: &mut Rng, tier: &str, out: &mut Out) {
         // make sure an empty piece is followed by data of the same file
         plan.pieces.insert(0, (0, Vec::new()));
         plan.pieces.push((0, b"after the empty block".to_vec()));
-        case_b(rng, out, &format!("c06-b0-{k}"), &plan, true, false, false);
+        case_b(rng, out, &format!("c06-b0-{k}"), &plan, true, scaled, false);
+    }
+    // (b'') the same on crafted layer-less archives, whole histories (single reads, read to end, linear extraction) compared with the model
+    for (k, (nf, lens)) in zlb_patterns(rng, if thorough { 30 } else { 7 }).iter().enumerate() {
+        case_z(rng, out, &format!("c06-z-{k}"), *nf, lens);
     }
     // (c) the committed sample (production constants only: the sample was written with them)
     if !scaled {
